@@ -55,7 +55,7 @@ var scratch18 = make([]byte, 0, 256)
 func historySet() []string {
 	var out []string
 	for _, d := range []string{"2021-03-01", "2021-03-02", "2021-04-01", "2020-02-29", "1969-12-31", "0001-01-01", "9999-12-31"} {
-		for _, t := range []string{"T00:00:00Z", "T23:59:59.999999999Z", "T12:34:56+05:30", "T12:34:56.5-08:00", "T01:02:03,25+00:00"} {
+		for _, t := range []string{"T00:00:00Z", "T23:59:59.999999999Z", "T12:34:56+05:30", "T12:34:56.5-08:00", "T01:02:03,25+00:00", "T06:07:08+01:00", "T06:07:08+02:00", "T06:07:08-03:00", "T06:07:08+09:30", "T06:07:08-11:00", "T06:07:08+12:45", "T06:07:08+00:17"} {
 			out = append(out, d+t)
 		}
 	}
@@ -128,7 +128,7 @@ func runHistories(c *fw.Ctx) {
 			check([]string{a, b})
 		}
 	}
-	small := []string{set[0], set[5], set[7], set[12], set[20], set[35], set[36], set[37]}
+	small := []string{set[0], set[5], set[7], set[12], set[20], set[35], set[36], set[37], set[len(set)-1], set[len(set)-2]}
 	for _, a := range small {
 		for _, b := range small {
 			for _, d := range small {
@@ -274,7 +274,7 @@ func fractions(alpha string, maxLen int, f func(string)) {
 	rec("")
 }
 
-var zones = []string{"Z", "+00:00", "-00:00", "+00:01", "-00:01", "+05:30", "-08:00", "+14:00", "-23:59", "+23:59", "+08:21"}
+var zones = []string{"Z", "+00:00", "-00:00", "+00:01", "-00:01", "+05:30", "-08:00", "+14:00", "-23:59", "+23:59", "+08:21", "+24:00", "+08:60", "-03:60", "+24:30"}
 
 type task18 struct {
 	name string
@@ -458,7 +458,7 @@ func init() {
 			if tier == "thorough" {
 				a, l = "{0,1,9}", 12
 			}
-			return fmt.Sprintf("exhaustive grammar product pushed through the public path (string field decoded into time.Time / null.Time by codecs from Schema.Codec): year {0000,0001,1969,1970,2024,9999} × month 01-12 × day {01,28,29,30,31} × hour {00,12,23} × minute,second {00,30,59} × 7 fraction shapes × 11 zones; every fraction digit string over %s of length 1..%d × {'.',','} × 11 zones × 2 base times; 9 digit patterns stretched to 11..45 fraction digits; all date-only strings of the grid; format→parse identity over 6 base times × 8 offsets × 40 nanosecond values (time.Time and null.Time); every truncation and single-character deletion/duplication/substitution (alphabet \"09-:T.,Z+x /\") of 6 valid timestamps; every string is decoded from one reused buffer (its bytes overwrite the previous string's), and every ordered pair of 38 valid timestamps and every triple of 8 is decoded as a history; with the process zone (time.Local) set to four zones incl. three with daylight saving, 1008 timestamps of both seasons with offsets equal and unequal to the zone's; non-trivial = the standard library accepts the string (time.Parse RFC3339 / 2006-01-02) so instant and offset were compared; all strings are checked for panics", a, l)
+			return fmt.Sprintf("exhaustive grammar product pushed through the public path (string field decoded into time.Time / null.Time by codecs from Schema.Codec): year {0000,0001,1969,1970,2024,9999} × month 01-12 × day {01,28,29,30,31} × hour {00,12,23} × minute,second {00,30,59} × 7 fraction shapes × 15 zones (incl. the hour 24 / minute 60 offsets the standard library accepts); every fraction digit string over %s of length 1..%d × {'.',','} × 15 zones (incl. the hour 24 / minute 60 offsets the standard library accepts) × 2 base times; 9 digit patterns stretched to 11..45 fraction digits; all date-only strings of the grid; format→parse identity over 6 base times × 8 offsets × 40 nanosecond values (time.Time and null.Time); every truncation and single-character deletion/duplication/substitution (alphabet \"09-:T.,Z+x /\") of 6 valid timestamps; every string is decoded from one reused buffer (its bytes overwrite the previous string's), and every ordered pair of 87 valid timestamps (12 distinct zones) and every triple of 10 is decoded as a history; with the process zone (time.Local) set to four zones incl. three with daylight saving, 1008 timestamps of both seasons with offsets equal and unequal to the zone's; non-trivial = the standard library accepts the string (time.Parse RFC3339 / 2006-01-02) so instant and offset were compared; all strings are checked for panics", a, l)
 		},
 		Assumptions: []string{
 			"time.Parse(time.RFC3339, s) of the toolchain is the oracle: the claim is made only for strings it accepts",
